@@ -125,7 +125,8 @@ def compileResult (env : Env) (sid : Nat) (part : Part) (st : CState) (r : Nat) 
     some (finish sid part st rts)
   else
     let r0 := (st.tasks[rts.headD 0]?).map (·.op) |>.getD "?"
-    let nn := namerNew st.namer (r0 ++ "_shuffle")
+    -- named after the consuming invocation (task outputs are stored by name)
+    let nn := namerNew st.namer ("invX_" ++ r0 ++ "_shuffle")
     let base := st.tasks.length
     let nts := rts.zipIdx.map fun (rt, shard) =>
       let t := st.tasks[rt]?
